@@ -1,8 +1,77 @@
 import Solvor.Common.Proto
 import Solvor.Sat.Model
-/-! Sat: line-protocol handler. One request line in, one reply line out. -/
-namespace Solvor.Sat
+/-! Sat: line-protocol handler.
 
-def handle (line : String) : String := "unimplemented " ++ line
+request `["case", clauses, assumptions, single, multi, wantEnum]`
+  clauses     : list of clauses (lists of ints)
+  assumptions : list of ints
+  single      : `Result.solution` as a list with 0 or 1 assignments, an assignment being a list
+                of `[var, 0|1]` pairs;  multi : `Result.solutions` likewise (empty if None)
+  wantEnum    : bool – also enumerate all models over the variables `1..nVars` (small inputs only)
+reply `[wf, sat, nVars, count|null, singleChecks, multiChecks, distinct, branches, conflicts, statOk]`
+  wf        : no literal is 0 (hypothesis of `dpll_sat_iff` / `dpll_unsat_iff`)
+  sat       : verdict of the proved reference DPLL on clauses + assumptions
+  count     : number of models over `1..nVars` (proved-complete enumerator), if requested
+  *Checks   : per assignment `[evalCnf, total, clausesTrue, assumptionsTrue]` – the verified
+              checker and its three conjuncts
+  distinct  : verified checker `distinctB` on `multi`
+  branches, conflicts, statOk : statistics of an instrumented DPLL run (non-triviality rule only)
+              and whether its verdict equals `solve`'s
+
+request `["luby", n]` → `[luby 1, …, luby n]` (the regenerated loop with the proved fuel)
+-/
+namespace Solvor.Sat
+open Solvor.Proto
+
+/-- instrumented copy of `dpll` (same branching), used only to classify inputs as non-trivial:
+returns (verdict, branchings on a clause of length ≥ 2, empty clauses met) -/
+def dpllStat : Nat → Cnf → Bool × Nat × Nat
+  | 0, _ => (false, 0, 0)
+  | fuel + 1, f =>
+    match pick f with
+    | none => (true, 0, 0)
+    | some [] => (false, 0, 1)
+    | some (l :: rest) =>
+      let b := if rest.isEmpty then 0 else 1
+      let (r1, b1, c1) := dpllStat fuel (assign l f)
+      if r1 then (true, b + b1, c1)
+      else
+        let (r2, b2, c2) := dpllStat fuel (assign (-l) f)
+        (r2, b + b1 + b2, c1 + c2)
+
+def parseAsg (xs : List (List Int)) : Option AList :=
+  xs.mapM fun p => match p with
+    | [v, b] => if v < 0 then none else some (v.toNat, b != 0)
+    | _ => none
+
+/-- verdict of the verified checker `evalCnf` plus its three conjuncts (for the explanation) -/
+def checkVal (f : Cnf) (as : List Int) (m : AList) : Val :=
+  Val.arr [Val.bool (evalCnf f as m), Val.bool (totalOn m f as),
+    Val.bool (f.all fun c => c.any (litHolds m)), Val.bool (as.all (litHolds m))]
+
+def parseAsgs (v : Val) : Option (List AList) := do
+  let xs ← v.toArr?
+  let ys ← xs.mapM Val.toIntss?
+  ys.mapM parseAsg
+
+def handle (line : String) : String :=
+  match request line with
+  | some ("case", [cls, asm, single, multi, we]) =>
+    match cls.toIntss?, asm.toInts?, parseAsgs single, parseAsgs multi, we.toBool? with
+    | some f, some as, some s1, some ms, some we =>
+      let g := withAssumptions f as
+      let sat := solve g
+      let n := nVars f as
+      let cnt : Option Nat := if we then some (enumModels (List.range' 1 n) g).length else none
+      let (r, br, cf) := dpllStat (size g + g.length + 1) g
+      (Val.arr [Val.bool (wfB g), Val.bool sat, Val.int n, Val.ofOpt (fun (k : Nat) => Val.int k) cnt,
+        Val.arr (s1.map (checkVal f as)), Val.arr (ms.map (checkVal f as)), Val.bool (distinctB (List.range' 1 n) ms),
+        Val.int br, Val.int cf, Val.bool (r == sat)]).render
+    | _, _, _, _, _ => err "bad arguments"
+  | some ("luby", [n]) =>
+    match n.toNat? with
+    | some n => (Val.ofNats ((List.range' 1 n).map luby)).render
+    | none => err "bad arguments"
+  | _ => err "bad request"
 
 end Solvor.Sat
